@@ -140,10 +140,16 @@ func (c *c19) RunCase(w *core.Worker, idx int, seed uint64, res *core.CaseResult
 				SampleInterval: uint64(time.Duration(1+rng.Intn(4)) * time.Millisecond),
 			})
 		}
+		pathless := ""
+		if rng.Chance(1, 5) {
+			// a subscription without any path is a valid message too
+			req.Subscription[rng.Intn(nsub)].Path = nil
+			pathless = " (one subscription without a path)"
+		}
 		st := fixture.NewFakeStream[*sdcpb.SubscribeResponse](ctx)
 		applyScript(st, sc)
 		cancel, sent = st.Cancel, st.NumSent
-		desc = fmt.Sprintf("Subscribe subs=%d leaves=%d script=%s", nsub, 2*size, sc)
+		desc = fmt.Sprintf("Subscribe subs=%d%s leaves=%d script=%s", nsub, pathless, 2*size, sc)
 		go func() {
 			defer func() {
 				if r := recover(); r != nil {
@@ -301,14 +307,22 @@ func (c *c19) hung(res *core.CaseResult, key, desc string, base int) {
 	}
 	a, b := ids(s1), ids(s2)
 	stable := 0
-	var stack string
+	var stack, handlerStack string
 	for _, s := range s2 {
 		if i := strings.IndexByte(s, '['); i > 0 && a[s[:i]] && b[s[:i]] {
 			stable++
 			if stack == "" && !strings.Contains(s, "checks.(*c19)") {
 				stack = s
 			}
+			// the handler goroutine itself is started by the harness (its stack ends in the check's closure): it counts
+			// when it is blocked inside data-server code, not inside the fake stream
+			if handlerStack == "" && strings.Contains(s, "checks.(*c19)") && strings.Contains(s, "github.com/sdcio/data-server/pkg/") && !strings.Contains(s, "fixture.(*FakeStream") {
+				handlerStack = s
+			}
 		}
+	}
+	if stack == "" {
+		stack = handlerStack
 	}
 	if n2 > base && stable > 0 && stack != "" {
 		first := stack
